@@ -54,6 +54,13 @@ func c09BombDoc(role string, n int) []byte {
 		d.AddResources(pg, fmt.Sprintf("/ExtGState<</G0<</Font[%s 12]>>>>", docgen.Ref(f)))
 	case "unreferenced stream":
 		d.AddStream("<</Filter/FlateDecode>>", bomb)
+	case "object stream body":
+		// every non-stream object lives in one object stream whose decoded body is padded to n bytes
+		d.Override = map[string]string{"ObjStmPad": fmt.Sprint(n)}
+		return d.BytesXRefStream(true)
+	case "xref stream data":
+		d.Override = map[string]string{"XRefPad": fmt.Sprint(n)}
+		return d.BytesXRefStream(false)
 	}
 	return d.Bytes()
 }
@@ -144,7 +151,7 @@ func c09ScanContext(ctx *model.Context, maxDecode, maxStream int64) (worst strin
 func c09Documents(r *core.R) {
 	scratch := core.Scratch("c09")
 	defer os.RemoveAll(scratch)
-	roles := []string{"page content", "second content stream", "form xobject", "image", "metadata", "embedded file", "font file", "unreferenced stream"}
+	roles := []string{"page content", "second content stream", "form xobject", "image", "metadata", "embedded file", "font file", "unreferenced stream", "object stream body", "xref stream data"}
 	const L = 16 << 10
 	type lim struct {
 		name              string
